@@ -4,11 +4,13 @@ Model: Iec.Link101 (tied to link_layer.c by checks/link_common.py).
 
 Step theorems (one frame, any state) for the unbalanced slave, the balanced station and the unbalanced master,
 and, for the unbalanced slave, history theorems over every stream of requests with every pattern of repetitions
-(`secU_stream_exactly_once`, `secU_repetitions_invisible`, `secU_repeated_response_identical`): the station refines
+(`secU_stream_exactly_once`, `secU_repetitions_invisible`, `secU_repeated_response_identical`; balanced station:
+`bal_stream_exactly_once`): the station refines
 the specification `Iec.Link101.View.stream` (`Lemmas/Link101Hist.lean`, `runStream_refines`).
 -/
 import Iec.Model.Link101
 import Iec.Lemmas.Link101Hist
+import Iec.Lemmas.Link101BalHist
 namespace Iec.Props.C15
 open Iec.Link101
 
@@ -318,6 +320,16 @@ example : rxOf (demoSec.runStream
     [(.data [0, 0, 0, 0, 0, 0, 1, 2] 6 2, 0), (.poll [] false, 2), (.data [0, 0, 0, 0, 0, 0, 3] 6 1, 1)]).2 = [[1, 2], [3]] := by decide
 example : (demoSec.runStream [(.poll [] false, 2)]).1.c2 = [] := by decide
 example : demoSec.view.QueuesOk := ⟨by decide, by decide⟩
+
+/-! ### histories: balanced station -/
+
+/-- **balanced station: each confirmed user-data frame is delivered to the application exactly once, in order,
+however often it is retransmitted and whatever the application answers to each copy** -/
+theorem bal_stream_exactly_once (s : Bal) (rs : List (BReq × Bool × List Bool)) :
+    rxOf (s.runData rs).2 = (rs.map fun x => x.1.payload).flatten := (bal_runData_spec rs s).1
+
+theorem bal_stream_fcb (s : Bal) (rs : List (BReq × Bool × List Bool)) :
+    (s.runData rs).1.expectedFcb = (if rs.length % 2 = 0 then s.expectedFcb else !s.expectedFcb) := (bal_runData_spec rs s).2
 
 end Iec.Props.C15
 
